@@ -25,5 +25,11 @@ pub mod tls;
 mod tx_index;
 pub mod watcher;
 
+/// Read-only access to crate-private items for the verification harness (feature `verif`).
+#[cfg(feature = "verif")]
+pub mod verif_access {
+    pub use crate::tx_index::{Data, Key, TxIndex, Type, Value};
+}
+
 #[cfg(test)]
 mod test_utils;
